@@ -17,51 +17,57 @@ var vhIntrinsics map[string]intrinsicFn
 
 func init() {
 	intrinsics = map[string]intrinsicFn{
-		"strconv.AppendInt":                intrAppendInt,
-		"strconv.AppendUint":               intrAppendUint,
-		"strconv.FormatInt":                intrFormatInt,
-		"strconv.FormatUint":               intrFormatUint,
-		"strconv.Itoa":                     intrItoa,
-		"strconv.ParseUint":                intrParseUint,
-		"strconv.AppendFloat":              intrAppendFloat,
-		"strconv.ParseFloat":               intrParseFloat,
-		"strconv.cloneString":              intrIdentity,
-		"strconv.Quote":                    intrOpaqueString,
-		"fmt.Sprintf":                      intrSprintf,
-		"fmt.Fprintf":                      intrFprintf,
-		"fmt.Errorf":                       intrErrorf,
-		"fmt.Sprint":                       intrOpaqueString,
-		"fmt.Sprintln":                     intrOpaqueString,
-		"math.Float32frombits":             intrIdentity,
-		"math.Float64frombits":             intrIdentity,
-		"math.Float32bits":                 intrIdentity,
-		"math.Float64bits":                 intrIdentity,
-		"strings.genSplit":                 intrGenSplit,
-		"strings.ToLower":                  intrToLower,
-		"strings.TrimSpace":                intrTrimSpace,
-		"strings.Join":                     intrJoin,
-		"strings.IndexByte":                intrIndexByteStr,
-		"strings.Index":                    intrIndexStr,
-		"strings.Contains":                 intrContainsStr,
-		"strings.HasPrefix":                nil,
-		"bytes.IndexByte":                  intrIndexByteBytes,
-		"bytes.TrimRight":                  intrTrimRight,
-		"bytes.Compare":                    intrBytesCompare,
-		"bytes.Equal":                      intrBytesEqual,
-		"internal/bytealg.MakeNoZero":      intrMakeNoZero,
-		"internal/bytealg.IndexByteString": intrIndexByteStr,
-		"internal/bytealg.IndexByte":       intrIndexByteBytes,
-		"(*sync.Once).Do":                  intrOnceDo,
-		"(*sync/atomic.Value).Store":       intrAtomicValueStore,
-		"(*sync/atomic.Value).Load":        intrAtomicValueLoad,
-		"time.Unix":                        intrTimeUnix,
-		"(time.Time).Local":                intrTimeLocal,
-		"(time.Time).UTC":                  intrTimeUTC,
-		"(time.Time).Date":                 intrTimeDate,
-		"(time.Time).Clock":                intrTimeClock,
-		"(time.Time).String":               intrOpaqueString,
-		"encoding/hex.EncodeToString":      nil,
-		"os.Getenv":                        intrOpaqueString,
+		"strconv.AppendInt":                       intrAppendInt,
+		"strconv.AppendUint":                      intrAppendUint,
+		"strconv.FormatInt":                       intrFormatInt,
+		"strconv.FormatUint":                      intrFormatUint,
+		"strconv.Itoa":                            intrItoa,
+		"strconv.ParseUint":                       intrParseUint,
+		"strconv.AppendFloat":                     intrAppendFloat,
+		"strconv.ParseFloat":                      intrParseFloat,
+		"strconv.cloneString":                     intrIdentity,
+		"strconv.Quote":                           intrOpaqueString,
+		"fmt.Sprintf":                             intrSprintf,
+		"fmt.Fprintf":                             intrFprintf,
+		"fmt.Errorf":                              intrErrorf,
+		"fmt.Sprint":                              intrOpaqueString,
+		"fmt.Sprintln":                            intrOpaqueString,
+		"math.Float32frombits":                    intrIdentity,
+		"math.Float64frombits":                    intrIdentity,
+		"math.Float32bits":                        intrIdentity,
+		"math.Float64bits":                        intrIdentity,
+		"strings.genSplit":                        intrGenSplit,
+		"strings.ToLower":                         intrToLower,
+		"strings.TrimSpace":                       intrTrimSpace,
+		"strings.Join":                            intrJoin,
+		"strings.IndexByte":                       intrIndexByteStr,
+		"strings.Index":                           intrIndexStr,
+		"strings.Contains":                        intrContainsStr,
+		"strings.HasPrefix":                       nil,
+		"bytes.IndexByte":                         intrIndexByteBytes,
+		"bytes.TrimRight":                         intrTrimRight,
+		"bytes.Compare":                           intrBytesCompare,
+		"bytes.Equal":                             intrBytesEqual,
+		"internal/bytealg.MakeNoZero":             intrMakeNoZero,
+		"internal/bytealg.IndexByteString":        intrIndexByteStr,
+		"internal/bytealg.IndexByte":              intrIndexByteBytes,
+		"(*sync.Once).Do":                         intrOnceDo,
+		"(*sync/atomic.Value).Store":              intrAtomicValueStore,
+		"(*sync/atomic.Value).Load":               intrAtomicValueLoad,
+		"time.Unix":                               intrTimeUnix,
+		"(time.Time).Local":                       intrTimeLocal,
+		"(time.Time).UTC":                         intrTimeUTC,
+		"(time.Time).Date":                        intrTimeDate,
+		"(time.Time).Clock":                       intrTimeClock,
+		"(time.Time).String":                      intrOpaqueString,
+		"encoding/hex.EncodeToString":             nil,
+		"os.Getenv":                               intrOpaqueString,
+		"github.com/Breeze0806/mysql.NewDumpConn": intrNewDumpConn,
+		"(*github.com/Breeze0806/mysql.DumpConn).Close":             intrDumpConnMethod,
+		"(*github.com/Breeze0806/mysql.DumpConn).Exec":              intrDumpConnMethod,
+		"(*github.com/Breeze0806/mysql.DumpConn).NoticeDump":        intrDumpConnMethod,
+		"(*github.com/Breeze0806/mysql.DumpConn).ReadPacket":        intrDumpConnMethod,
+		"(*github.com/Breeze0806/mysql.DumpConn).HandleErrorPacket": intrDumpConnMethod,
 	}
 	for k, v := range intrinsics {
 		if v == nil {
@@ -143,12 +149,20 @@ func init() {
 			e.yield()
 			return nil
 		},
+		"vhSyncPoint": func(e *Exec, _ *Frame, _ *ssa.Function, args []Value) Value {
+			e.syncPoint(int(e.ConcInt(args[0].(*Term))))
+			return nil
+		},
 		"vhQuiesce": func(e *Exec, _ *Frame, _ *ssa.Function, _ []Value) Value {
 			e.quiesce()
 			return e.i64(int64(e.liveLibThreads()))
 		},
 		"vhB2U": func(e *Exec, _ *Frame, _ *ssa.Function, args []Value) Value {
 			return e.ctx.Ite(args[0].(*Term), e.ctx.Const(64, 1), e.ctx.Const(64, 0))
+		},
+		"vhSkipNative": func(e *Exec, _ *Frame, _ *ssa.Function, _ []Value) Value { return nil },
+		"vhThreadID": func(e *Exec, _ *Frame, _ *ssa.Function, _ []Value) Value {
+			return e.i64(int64(e.ss.cur.id))
 		},
 		"vhEngine": func(e *Exec, _ *Frame, _ *ssa.Function, _ []Value) Value { return e.ctx.True },
 	}
@@ -992,4 +1006,36 @@ func (e *Exec) findMethod(t types.Type, name string) *ssa.Function {
 		return nil
 	}
 	return e.P.prog.MethodValue(sel)
+}
+
+// The MySQL driver and its TCP connection are replaced by the harness's
+// scripted connection (DESIGN.md appendix E): NewDumpConn and the DumpConn
+// methods delegate to vhModelDumpConn / (*vConn).<method> in the harness.
+func intrNewDumpConn(e *Exec, caller *Frame, fn *ssa.Function, args []Value) Value {
+	h := e.P.harnessFunc("vhModelDumpConn")
+	if h == nil {
+		e.unsupported("mysql.NewDumpConn without a scripted connection (vhModelDumpConn)")
+	}
+	r := e.call(caller, h, args).(TupleV)
+	return r
+}
+
+func intrDumpConnMethod(e *Exec, caller *Frame, fn *ssa.Function, args []Value) Value {
+	sp := e.P.pkgs[repoModule]
+	var m *ssa.Function
+	if sp != nil {
+		if t := sp.Type("vConn"); t != nil {
+			m = e.P.prog.LookupMethod(types.NewPointer(t.Type()), sp.Pkg, fn.Name())
+			if m == nil {
+				sel := e.P.prog.MethodSets.MethodSet(types.NewPointer(t.Type())).Lookup(sp.Pkg, fn.Name())
+				if sel != nil {
+					m = e.P.prog.MethodValue(sel)
+				}
+			}
+		}
+	}
+	if m == nil {
+		e.unsupported("scripted connection has no method %s", fn.Name())
+	}
+	return e.call(caller, m, args)
 }
